@@ -103,8 +103,16 @@ def run_config(args):
                     out["unsat"] += 1
                 elif verdict == "sat":
                     out["sat"] += 1
-                    out["failures"].append({"name": name, "verdict": "sat", "env": _envjson(env),
-                                            "decisions": ctx.decisions, "detail": ""})
+                    rec = {"name": name, "verdict": "sat", "env": _envjson(env), "decisions": ctx.decisions, "detail": ""}
+                    # z3 favours degenerate models (zeros, equal values) on which a real difference can vanish numerically:
+                    # also ask for a generic one (all input variables non-zero, neighbours neither equal nor opposite) for the replay
+                    try:
+                        alt = _generic_model(ctx, obl, dec)
+                        if alt:
+                            rec["env_alt"] = _envjson(alt)
+                    except Exception:
+                        pass
+                    out["failures"].append(rec)
                 else:
                     out["unknown"] += 1
                     out["inconclusive"].append({"why": "solver unknown on %s" % name, "decisions": ctx.decisions})
@@ -121,6 +129,30 @@ def run_config(args):
     out["trivial"] = solve.STATS["trivial"] - triv0
     out["wall_s"] = time.time() - t0
     return out
+
+
+def _generic_model(ctx, obl, dec):
+    from . import scalar as S
+    from . import algebra as A
+    pc = ctx.relevant_pc(obl)
+    aux = set()
+    for vs in ctx.defgroups:
+        aux |= vs
+    vs = set(obl.vars())
+    for b in pc:
+        vs |= b.vars()
+    names = sorted((A.var_name(v), v) for v in vs if v not in aux and "!" not in A.var_name(v))
+    if not names or len(names) > 60:
+        return None
+    extra = []
+    polys = [A.Poly({((v, 1),): 1}) for _, v in names]
+    for p in polys:
+        extra.append(S.B.cmp("!=", p))
+    for p, q in zip(polys[:-1], polys[1:]):
+        extra.append(S.B.cmp("!=", p - q))
+        extra.append(S.B.cmp("!=", p + q))
+    verdict, env, _ = dec(list(pc) + extra, obl)
+    return env if verdict == "sat" else None
 
 
 # ------------------------------------------------------------------ replay (float mode, clean process)
@@ -234,6 +266,12 @@ def main_check(modname, tier, seed, extra=None):
                 json.dump(rec, fh, indent=1)
             nreplay += 1
             rc, outp = _replay_subprocess(path)
+            if rc == 0 and f.get("env_alt"):
+                rec["env"] = f["env_alt"]
+                rec["note"] = "generic model (the first model did not reproduce numerically)"
+                with open(path, "w") as fh:
+                    json.dump(rec, fh, indent=1)
+                rc, outp = _replay_subprocess(path)
             if rc == 1:
                 k = match_known(known, r["id"], f["name"])
                 if k is not None:
